@@ -583,7 +583,17 @@ def compare(ctx, c, obs, items, C):
         same = int((dq == 0).sum())
         if same:
             ctx.corr("step.momentum.q", True, same)
+        # float32 flush regimes of the quantizer (known findings K1/K2 of C11, the platform's flush-to-zero / denormals-are-zero):
+        # a momentum column whose bucket max|m|/N is below the normal range, or an entry that is itself subnormal, is stored as 0
+        # by XLA-CPU while the binary64 model keeps it -- not a statement about SM3's accumulators, classified and skipped
+        tiny = 2.0 ** -1022 if c["x64"] else 2.0 ** -126
+        mm = np.abs(mom.reshape(-1, cols))
+        flush_col = (colmax > 0) & (colmax <= N * tiny * (1 + 2.0 ** -20))
+        daz = (mm > 0) & (mm < tiny)
         for (i, j) in np.argwhere(dq != 0):
+            if flush_col[j] or daz[i, j]:
+                ctx.corr("step.momentum.q.flush_regime(C11 K1/K2)", True)
+                continue
             fr = ratio[i, j] - np.floor(ratio[i, j])
             if abs(int(dq[i, j])) == 1 and abs(fr - 0.5) <= delta[j]:
                 ctx.corr("step.momentum.q.boundary", True)
